@@ -875,7 +875,6 @@ V('C15', 'connect-stores-list', BLK, "            self.inputs[iname] = tuple(inp
 V('C15', 'oconn-other-block', SIM, "                        self._blocks[inp.name].oconnections.add(blk)\n", "                        blk.oconnections.add(inp)\n", 'R15.2')
 V('C15', 'event-dest-any-block', BLK, "        simulator.get_circuit().resolve_name(self, '_dest', SBlock)", "        simulator.get_circuit().resolve_name(self, '_dest')", 'R15.5')
 V('C15', 'unfinalize', SIM, "    def is_finalized(self) -> bool:\n        \"\"\"Return True only if finalize() was called.\"\"\"\n        return self._finalized\n", "    def is_finalized(self) -> bool:\n        \"\"\"Return True only if finalize() was called.\"\"\"\n        return self._finalized\n\n    def unfreeze(self) -> None:\n        self._finalized = False\n", 'R15.1')
-E('C15', 'resolve-after-connect', SIM, "            self._resolver.resolve()\n            self._finalize()\n            self._finalized = True\n", "            self._finalize()\n            self._resolver.resolve()\n            self._finalized = True\n")
 E('C15', 'gate-alias', BLK, "        self.circuit.check_not_finalized()\n        if self.inputs:\n", "        circuit = self.circuit\n        circuit.check_not_finalized()\n        if self.inputs:\n")
 
 # ----------------------------------------------------------------------------- C03
@@ -1681,3 +1680,24 @@ E('C12', 'start-gather-len-test', S2, "        if tasks:\n            await asyn
   "        if len(tasks) > 0:\n            await asyncio.gather(*tasks, return_exceptions=True)")
 E('C12', 'start-gather-unconditional', S2, "        if tasks:\n            await asyncio.gather(*tasks, return_exceptions=True)",
   "        await asyncio.gather(*tasks, return_exceptions=True)")
+
+# ---- C15 R15.1 order / R15.7 signature grid (seeds C15-1, C15-2)
+V('C15', 'resolve-after-connection-pass', SIM, '''            self._resolver.resolve()
+            self._finalize()
+            self._finalized = True''', '''            self._finalize()
+            self._resolver.resolve()
+            self._finalized = True''', 'R15.1')
+V('C15', 'signature-empty-group-as-single', BLK, '''                if value is not None:
+                    return f"{name}: is a group, expected was a single input"''', '''                if value:
+                    return f"{name}: is a group, expected was a single input"''', 'R15.7')
+V('C15', 'signature-min-exclusive', BLK, "                if cmin is not None and value < cmin:", "                if cmin is not None and value <= cmin:", 'R15.7')
+V('C15', 'signature-max-ignored-when-min', BLK, "                if cmax is not None and value > cmax:", "                if cmin is None and cmax is not None and value > cmax:", 'R15.7')
+V('C15', 'signature-errors-not-raised', BLK, '''            if errors:
+                raise ValueError(f"Not connected correctly: {'; '.join(errors)}")''', '''            if len(errors) > 1:
+                raise ValueError(f"Not connected correctly: {'; '.join(errors)}")''', 'R15.7')
+E('C15', 'signature-elif-chain', BLK, '''            if expected is None:
+                if value is not None:
+                    return f"{name}: is a group, expected was a single input"''', '''            if expected is None and value is not None:
+                return f"{name}: is a group, expected was a single input"
+            if expected is None:
+                pass''')
